@@ -78,6 +78,9 @@ int vp_harness_main(void) {
 #else
   uint64_t max = vp_in_u64();
   vec_t v; uint64_t m = NM;
+#ifdef FAULT
+  { uint32_t fk = vp_in_u32(); ASSUME(fk < FAULT); vec_fail_at = (int)fk; }   /* C19: the fk-th growth of the result vector throws std::bad_alloc */
+#endif
 #if OP == 1
   { str_t sep; uint8_t ts[SMAX + 1]; S_mk_n(&sep.f0, ts, 0, NM); for (int i = 0; i < NM; i++) sp[i] = ts[i];
     vp_split_str(&v, &s, &sep, max, ci); S_destroy(&sep.f0); }
@@ -90,6 +93,19 @@ int vp_harness_main(void) {
 #elif OP == 4
   { uint8_t *z = (uint8_t *)vp_exact(NM + 1); for (int i = 0; i < NM; i++) { ASSUME(sp[i] != 0); z[i] = sp[i]; } z[NM] = 0;
     vp_tokenize(&v, &s, z); }
+#endif
+#ifdef FAULT
+  if (vp_exc_pending) {
+    ASSERT(vp_exc_kind == VP_EXC_BAD_ALLOC, "allocation failure surfaces as std::bad_alloc");
+    REACH("allocation-failure path");
+    vp_clear_exception();
+    for (uint64_t j = 0; j < NS; j++) ASSERT(s.f0.f0[j] == sh[j], "subject unchanged");
+    /* the partially built vector was destroyed by the library's unwinding (its destructor ran); the pieces built so far and the piece in flight are released */
+    S_destroy(&s.f0);
+    ASSERT(vp_live_blocks == 0, "no leak after the failed split");
+    REACH("end of harness");
+    return 0;
+  }
 #endif
   ASSERT(!vp_exc_pending, "split/tokenize does not throw");
   /* reference boundaries */
